@@ -90,7 +90,23 @@ fn main() {
                 src.drawn.iter().map(|d| jstr(d)).collect::<Vec<_>>().join(",")
             );
         }
+        "evalbatch" => {
+            // one request per stdin line: <fn> <args...>; one result line each
+            use std::io::BufRead;
+            std::panic::set_hook(Box::new(|_| {}));
+            let stdin = std::io::stdin();
+            for line in stdin.lock().lines() {
+                let line = line.unwrap();
+                let parts: Vec<String> = line.split_whitespace().map(|s| s.to_string()).collect();
+                if parts.is_empty() {
+                    println!();
+                    continue;
+                }
+                println!("{}", hifitime::verif::evalfn::eval(&parts[0], &parts[1..]));
+            }
+        }
         "eval" => {
+            std::panic::set_hook(Box::new(|_| {}));
             let out = hifitime::verif::evalfn::eval(&args[2], &args[3..]);
             println!("{out}");
         }
